@@ -1380,3 +1380,22 @@ def run_X03(ctx):
         "the three backend adapters; TLC compares, for every letter, how often the device callback ran and with which arguments/file, what the "
         "frontend observes (value reply, in-band failure, ack, nack, end of connection), the value/file carried by the reply, and that the GPU "
         "proxy handed to the device talks to the socket the frontend supplied", ASSUME_COMMON, viol)
+
+
+def run_X04(ctx):
+    """Life-cycle of Listener / BackendListener objects on a socket path (ListenerLife.tla)."""
+    cases = ctx.tlc_mc("MC_ListenerLife", "MC_ListenerLife_cover")
+    cases += ctx.tlc_mc("MC_ListenerLife", "MC_ListenerLife_hist" if ctx.tier == "quick" else "MC_ListenerLife_hist_thorough", max_cases=60000)
+    cases = replay_or(ctx, "listen", cases)
+    tr = ctx.harness("listen", cases, shards=8)
+    viol = ctx.tlc_tv("TV_ListenerLife", tr, "listen")
+    ctx.count_distinct(tr, lambda e: (e.get("op"), e.get("f"), e.get("res"), e.get("fs")), lambda e: e.get("ev") == "step")
+    ctx.sample(tr, 2, skip=2)
+    ctx.exhaustive = True
+    return ctx.finish("model_checking",
+        "ListenerLife.tla: every transition of the listener life-cycle model (two listener slots on one path: new with/without unlink, adopt a "
+        "bound socket, plant a file, connect, accept / accept through BackendListener, blocking mode, drop) and all histories to the cfg depth "
+        "are model-checked (each connection handed out once, owning listener reachable, no queue at a dead listener) and replayed on real "
+        "Listener / BackendListener objects; TLC compares every result, what is at the path afterwards, which pending connection an accept "
+        "yields (FIFO), that the request server obtained from BackendListener serves that connection, and the descriptor balance at teardown",
+        ASSUME_COMMON, viol)
